@@ -132,6 +132,11 @@ func (m *c11Mon) afterBlock() {
 			r.Probe("c11_payout_several_providers")
 		}
 		// tracked CU is paid out at most once
+		if left, leftTotal := s.K.Subscription.GetSubTrackedCuInfo(s.Ctx, t.Consumer, t.Data.Block); len(left) > 0 && leftTotal > 0 {
+			r.Probe("c11_tracked_cu_still_listed_after_payout")
+		} else {
+			r.Probe("c11_tracked_cu_gone_after_payout")
+		}
 		r.Check(!m.paid[key], "tracked-cu-paid-twice", "same-month", "month@%d of %s is paid out a second time at the end of block %d (tracked %v)", t.Data.Block, s.NameOf(t.Consumer), sn.height, c11TrackedStr(s, tl))
 		m.paid[key] = true
 		// credit capped at the per-CU limit: the statement can be read with or without rounding of
